@@ -226,22 +226,25 @@ bool StepScript(InterpreterEnv& env)
             if (!env.scriptsig_pushonly)
                 return set_error(serror, SCRIPT_ERR_SIG_PUSHONLY);
 
+            // (the checks come first: a switch that fails must leave the session where it was, or the next step finds neither a
+            // redeem script nor a reason to fail and ends the session as a success)
+
+            // stack cannot be empty here in a run without failures, because the P2SH  HASH <> EQUAL  scriptPubKey
+            // would have failed on an empty stack -- but the debugger lets the user keep stepping after a failed
+            // operation, so this must be an error, not an assertion
+            if (env.p2shstack.empty())
+                return set_error(serror, SCRIPT_ERR_INVALID_STACK_OPERATION);
+            // the redeem script is a script like the others: subject to the script size limit (it can only be this large when it was given as a
+            // plain stack argument; as a push of a scriptSig it is limited to 520 bytes anyway)
+            if (env.p2shstack.back().size() > MAX_SCRIPT_SIZE)
+                return set_error(serror, SCRIPT_ERR_SCRIPT_SIZE);
+
             // Restore stack.
             is_p2sh = false;
             stack = env.p2shstack;
             // swap(stack, stackCopy);
 
-            // stack cannot be empty here in a run without failures, because the P2SH  HASH <> EQUAL  scriptPubKey
-            // would have failed on an empty stack -- but the debugger lets the user keep stepping after a failed
-            // operation, so this must be an error, not an assertion
-            if (stack.empty())
-                return set_error(serror, SCRIPT_ERR_INVALID_STACK_OPERATION);
-
             const valtype& pubKeySerialized = stack.back();
-            // the redeem script is a script like the others: subject to the script size limit (it can only be this large when it was given as a
-            // plain stack argument; as a push of a scriptSig it is limited to 520 bytes anyway)
-            if (pubKeySerialized.size() > MAX_SCRIPT_SIZE)
-                return set_error(serror, SCRIPT_ERR_SCRIPT_SIZE);
             CScript pubKey2(pubKeySerialized.begin(), pubKeySerialized.end());
             script = pubKey2;
             popstack(stack);
